@@ -28,6 +28,11 @@ relations of the property are the edges, executed on the real calculator and com
                       again, the caller refills the object in place, call, the caller writes into the result; the
                       argument reads the same after every call, every result is an object of its own and stays what it
                       was, every call is right
+  default density     every kind of atom with neutron data (element, isotope, D, T, and every ion of each) as a compound of
+                      that ONE kind of atom written in 11-12 ways (the atom, lists with counts 1 / 3 / 0.25, split and
+                      grouped lists, a dict, strings, a kept Formula): the density omitted == the formula's own density
+                      handed back as density= ; from there density x k; neutron_sld at the omitted density; the ways of
+                      writing agree; the start state itself against the reference equations
   invariants          rho_im, rho_inc, Sigma_coh, Sigma_abs, Sigma_inc, t_u >= 0 in every state visited
   conversions         E lambda^2 and v lambda constant on a 40-point log grid, round trips, the documented
                       anchor 1.798 A = 2200 m/s = 25.3 meV (to the printed digits), vector == scalar
@@ -62,7 +67,14 @@ META = dict(
           "call, call, caller refills the object in place, call, caller writes into the last result: after "
           "every step the argument (and the parent of a view) is bit-identical to what the caller left, no result "
           "shares memory with it, every result handed out earlier is bit-identical to its snapshot, and every call "
-          "is judged entry by entry against the scalar calls; non-trivial = the "
+          "is judged entry by entry against the scalar calls; DEFAULT DENSITY: a compound of one kind of atom has a "
+          "density without being given one (the atom's); for every atom kind with neutron data - element, isotope, ion, "
+          "isotope ion, D, T and their ions - and every way of writing such a compound (atom object, [(1, X)], [(3, X)], "
+          "[(0.25, X)], [(1, X), (2, X)], [(2, [(1, X), (0.5, X)])], {X: 2}, 'X', 'X2', '(X)2X0.5', alias spellings of D "
+          "and T, a Formula the caller keeps) the state (density omitted, wavelength omitted | given) is compared with "
+          "the reference equations at the density the caller reads off formula(compound).density, with the call that "
+          "hands this density back as density=, with density= k x it (k in 0.5, 2, 10), with neutron_sld at the omitted "
+          "density, and with the other ways of writing that have the same default density; non-trivial = the "
           "edge changes the input (k != 1, non-identity permutation, non-flat tree, other constructor, vector, other "
           "route / keyword / kind of argument object)"),
     bound=dict(
@@ -76,7 +88,9 @@ META = dict(
               "all pairs over the class alphabet (counts 1, 2) x every route x 2 density keywords x (7 scalar calls + "
               "2 keywords x argument kinds x 2-3 calls), all 13 argument kinds for the one-atom compounds and the "
               "pairs over the 9-atom alphabet, {float64 array, list of integers} for the other pairs; conversion "
-              "functions: 3 functions x 13 argument kinds x lengths {2, 4}",
+              "functions: 3 functions x 13 argument kinds x lengths {2, 4}; default density: all 2225 atom kinds (361 "
+              "elements and isotopes with data and density x charge 0 and every charge of element.ions) x 11-12 ways "
+              "of writing x {wavelength omitted, 4.75, a table midpoint} (parsed strings: wavelength omitted) x 6 calls",
         thorough="as quick with every 3rd table node/midpoint in the scale/energy edges, structure edges for all "
                  "multisets of size <= 3 over 9 atoms and of size 4 over 6 atoms; object sessions for all 9 count pairs; "
                  "front ends with all 13 argument kinds for every compound"),
@@ -93,6 +107,12 @@ META = dict(
         "a Formula the caller keeps must have the same structure, density and name after a call as before (documented "
         "attributes only; private memo attributes are not looked at)",
         "natural_density of ions and isotope ions: the natural atom keeps the charge (as in C03)",
+        "default density: WHICH density a compound of one kind of atom has by default is not in the statement and not "
+        "judged (it is read off formula(compound).density, as a caller would); what is judged is that the calculation "
+        "with the density omitted is the calculation at that density (docstring of formula: density 'not needed for "
+        "single element formulas'; neutron_scattering asserts compound.density) and that the density edge holds from "
+        "there; a way of writing whose default density is None is counted, not judged; two ways of writing are related "
+        "only when they report the same default density",
         "front ends: a route that does not exist in the tree (deprecated aliases) is not judged; Formula.neutron_sld "
         "is asked on formula(compound, density= | natural_density=); neutron_sld_from_atoms gets the {atom: count} "
         "dictionary; giving BOTH energy= and wavelength= is not in the statement and not in the alphabet; "
@@ -119,6 +139,12 @@ A3 = (("H", 0, 0), ("Gd", 157, 0), ("O", 18, -2))
 A6 = (("H", 0, 0), ("H", 2, 0), ("O", 0, 0), ("V", 0, 0), ("Gd", 157, 0), ("O", 18, -2))
 AC = (("O", 0, 0), ("O", 0, -2), ("O", 18, 0), ("O", 18, -2))     # atoms that differ only in charge / only in isotope
 POS_COUNTS = (1, 2, 0.5, 3)
+
+
+def atom_kind(key):
+    """element | isotope | ion | isotope-ion"""
+    sym, a, q = key
+    return ("isotope" if a else "element") if q == 0 else ("isotope-ion" if a else "ion")
 
 
 # ------------------------------------------------------------------ trees over a fragment sequence
@@ -1105,6 +1131,168 @@ class Edges(object):
                             broken.add(how if ri == 0 else (route, how))
 
 
+    # ---- (H) compounds of ONE kind of atom, starting from their DEFAULT density
+    # A compound of a single kind of atom needs no density: formula() gives it the density of its atom, and
+    # neutron_scattering(compound) without density= calculates at that density.  That state - density omitted, and the
+    # same density read off the formula and handed back as density= - is the START of the density edge here: for every
+    # kind of atom (element, isotope, ion, isotope ion; D, T and their ions) written in every way.
+    def default_forms(self, key):
+        """(name, compound, python source, atoms per formula unit, parsed on every call?) of every way of writing a
+        compound of the one kind of atom `key`"""
+        atom = lib_atom(self.pt, key)
+        s, p = atom_str(key), atom_py(key)
+        q = s[s.index("{"):] if "{" in s else ""
+        out = [("atom", atom, p, 1, False),
+               ("list", [(1, atom)], "[(1, %s)]" % p, 1, False),
+               ("list-count", [(3, atom)], "[(3, %s)]" % p, 3, False),
+               ("list-fraction", [(0.25, atom)], "[(0.25, %s)]" % p, 0.25, False),
+               ("list-split", [(1, atom), (2, atom)], "[(1, %s), (2, %s)]" % (p, p), 3, False),
+               ("list-group", [(2, [(1, atom), (0.5, atom)])], "[(2, [(1, %s), (0.5, %s)])]" % (p, p), 3, False),
+               ("dict", {atom: 2}, "{%s: 2}" % p, 2, False),
+               ("string", s, repr(s), 1, True),
+               ("string-count", s + "2", repr(s + "2"), 2, True),
+               ("string-group", "(%s)2%s0.5" % (s, s), repr("(%s)2%s0.5" % (s, s)), 2.5, True)]
+        if key[:2] == ("H", 2):
+            out.append(("string-alias", "H[2]" + q, repr("H[2]" + q), 1, True))
+        if key[:2] == ("H", 3):
+            out.append(("string-alias", "T" + q, repr("T" + q), 1, True))
+        return out
+
+    def default_edges(self, key):
+        acc = self.acc
+        pt = self.pt
+        key = tuple(key)
+        frags = [(1, key)]
+        cls = "%s-%s" % (atom_kind(key), self.cls(frags))
+        self.data.clear_cache()
+        jk = list(key)
+        lu = key[:2] == ("Lu", 0)
+        wls = [None, 4.75] + self.structure_wavelengths(frags)[2:]
+        head = ["import numpy as np", "import periodictable as pt", "from periodictable import nsf"]
+        first = {}                  # wavelength -> (default density, result) of the first form
+        forms = self.default_forms(key)
+        # ... and the Formula object the caller keeps
+        try:
+            F = pt.formula(forms[0][1])
+        except Exception as e:
+            acc.violation("raises:formula:%s" % cls, dict(kind="default", key=jk, form="formula"), "a formula",
+                          "%s: %s" % (type(e).__name__, e),
+                          standalone="\n".join(head + ["print(pt.formula(%s))" % forms[0][2]]) + "\n")
+            return
+        forms.append(("formula", F, "F", 1, False))
+        fsnap = self._fsnap(F)
+        for fname, comp, csrc, natoms, parsed in forms:
+            pre = head + (["F = pt.formula(%s)" % forms[0][2]] if fname == "formula" else [])
+            case0 = dict(kind="default", key=jk, form=fname)
+            try:
+                d0 = F.density if fname == "formula" else pt.formula(comp).density
+            except Exception as e:
+                acc.violation("raises:formula:%s" % cls, case0, "a formula", "%s: %s" % (type(e).__name__, e),
+                              standalone="\n".join(pre + ["print(pt.formula(%s).density)" % csrc]) + "\n")
+                continue
+            if d0 is None or not (d0 > 0) or not math.isfinite(d0):
+                acc.count("default_density_unknown_not_judged:%s" % fname)
+                continue
+            d0 = float(d0)
+            fr = [(natoms, key)]
+            for w in (wls[:1] if parsed else wls):
+                wv = rn.ABS_WL if w is None else w
+                wkw = {} if w is None else dict(wavelength=w)
+                wsrc = "" if w is None else ", wavelength=%r" % w
+                case = dict(case0, wavelength=w)
+                acc.states += 1
+
+                def snip(*calls):
+                    return "\n".join(pre + ["print(%s)" % c for c in calls]) + "\n"
+
+                def kept_intact(c2, code):
+                    if fname == "formula" and self._fsnap(F) != fsnap:
+                        now = self._fsnap(F)
+                        which = [k for k in sorted(fsnap) if fsnap[k] != now[k]][0]
+                        acc.violation("argument-altered:formula.%s" % which, c2,
+                                      "F.%s as the caller left it: %r" % (which, fsnap[which]), repr(now[which]),
+                                      standalone=snip(code, "F.%s" % which), detail=dict(cls=cls))
+                        return False
+                    return True
+
+                bsrc = "pt.neutron_scattering(%s%s)" % (csrc, wsrc)
+                st, A = self.call(comp, None, dict(wkw), None)
+                if st == "exc":
+                    acc.violation("raises:default-density:%s" % cls, case, "a result", A, standalone=snip(bsrc))
+                    break
+                A = self.scalarize(A)
+                if not kept_intact(case, bsrc) or not self.invariants(A, case, cls, None, standalone=snip(bsrc)):
+                    break
+                acc.nontrivial += 1
+                ref = self.data.evaluate(fr, d0, wv)
+                # the equations at the density the caller reads off the formula
+                bad = None
+                for variant in (("mass", "nsf") if lu else ("mass",)):
+                    b2 = rn.compare(self.data.evaluate(fr, d0, wv, lu=variant), A)
+                    if bad is None or len(b2) < len(bad):
+                        bad = b2
+                acc.transitions += 1
+                acc.traces += 1
+                if bad:
+                    acc.violation("default-density:base-vs-reference:%s" % cls, case,
+                                  dict((k, ref[k]) for k in rn.OUTPUTS), dict((k, repr(A[k])) for k in rn.OUTPUTS),
+                                  standalone=snip(bsrc, "pt.formula(%s).density" % csrc,
+                                                  "pt.neutron_scattering(%s, density=2*pt.formula(%s).density%s)"
+                                                  % (csrc, csrc, wsrc)),
+                                  detail=dict(failing=bad, density=d0))
+                    break
+                acc.outcome("default density: %s, %s" % (cls, "parsed" if parsed else "objects"))
+                # the same density handed back, and scaled
+                ok = True
+                for k in (1.0,) + SCALE_K:
+                    c2 = dict(case, edge="density", k=k)
+                    esrc = "pt.neutron_scattering(%s, density=%r%s)" % (csrc, d0 * k, wsrc)
+                    st, B = self.call(comp, None, dict(wkw, density=d0 * k), None)
+                    if st == "exc":
+                        acc.violation("raises:density:%s" % cls, c2, "a result", B, standalone=snip(esrc))
+                        ok = False
+                        break
+                    B = self.scalarize(B)
+                    if not kept_intact(c2, esrc) or not self.invariants(B, c2, cls, None, standalone=snip(bsrc, esrc)) or \
+                            not self.relate("default-density-given-back" if k == 1.0 else "density-scale-from-default",
+                                            ref, A, B, k, k, 1e-12, 1e-12, c2, cls, None, standalone=snip(bsrc, esrc)):
+                        ok = False
+                        break
+                if not ok:
+                    break
+                # the SLD front end at the default density
+                c2 = dict(case, edge="neutron_sld")
+                esrc = "pt.neutron_sld(%s%s)" % (csrc, wsrc)
+                acc.evaluations += 1
+                try:
+                    with np.errstate(all="ignore"):
+                        sld = [float(x) for x in pt.neutron_sld(comp, **wkw)]
+                    if len(sld) != 3:
+                        raise ValueError("%d results" % len(sld))
+                except Exception as e:
+                    acc.violation("raises:front-end-default-density:%s" % cls, c2, "three SLDs",
+                                  "%s: %s" % (type(e).__name__, e), standalone=snip(esrc))
+                    break
+                R = dict(A)
+                R.update(rho_re=sld[0], rho_im=sld[1], rho_inc=sld[2])
+                if not kept_intact(c2, esrc) or \
+                        not self.relate("front-end-default-density", ref, A, R, 1.0, 1.0, 1e-12, 1e-12, c2, cls, None,
+                                        standalone=snip(bsrc, esrc)):
+                    break
+                # another way of writing the same atoms: same default density, same result
+                if w not in first:
+                    first[w] = (d0, A, bsrc, pre)
+                else:
+                    df, A1, src1, pre1 = first[w]
+                    if df == d0:
+                        c2 = dict(case, edge="structure")
+                        if not self.relate("structure-at-default-density", ref, A1, A, 1.0, 1.0, 1e-12, 1e-12, c2, cls, None,
+                                           standalone="\n".join(pre1 + [x for x in pre if x not in pre1]
+                                                                + ["print(%s)" % src1, "print(%s)" % bsrc]) + "\n"):
+                            break
+                    else:
+                        acc.count("default_density_differs_between_forms_not_judged")
+
     # ---- (C) structure edges of one fragment multiset
     def structure_wavelengths(self, frags):
         pts = [1.798, 4.75]
@@ -1460,12 +1648,26 @@ def shard(args):
             ed.object_edges(frags)
         elif kind == "front":
             ed.front_edges(frags, front_kinds(frags, tier))
+        elif kind == "default":
+            ed.default_edges(frags[0][1])
         else:
             raise MachineryError(kind)
         acc.count("compounds:" + kind)
     if items:
         acc.sample(dict(kind=kind, compound=c03.compound_str(items[0])))
     return acc
+
+
+def default_items(data):
+    """every kind of atom that has neutron data and a density - every element and isotope (D and T are H[2], H[3]), and
+    every ion of each that the library lists for the element - as a one-atom compound"""
+    pt = load_pt()
+    out = []
+    for sym, a, _ in c03.all_data_atoms(data):
+        for q in (0,) + tuple(pt.elements.symbol(sym).ions):
+            if data.has_data((sym, a, q)) is True:
+                out.append([(1, (sym, a, q))])
+    return out
 
 
 FRONT_KINDS_REDUCED = ("f64", "list-int")
@@ -1530,6 +1732,11 @@ def run(ctx):
     fw = [(4.0 if front_kinds(f, tier) is ARG_KINDS else 1.0) for f in fitems]
     for chunk in c03._balanced(fitems, fw, nsh):
         jobs.append(("front", chunk, tier))
+    ditems = default_items(data)
+    dw = [(3.0 if c03._weight(data, [k for c, k in f]) > 7 else 1.0) for f in ditems]
+    for chunk in c03._balanced(ditems, dw, nsh):
+        jobs.append(("default", chunk, tier))
+    ctx.acc.info["default_density_atoms"] = len(ditems)
     ctx.pmap(shard, rotate(jobs, ctx.seed))
     ctx.acc.info["front_end_routes"] = [r for r, _ in Edges(Acc(), tier).routes()]
     ctx.acc.info["argument_kinds"] = list(ARG_KINDS)
@@ -1550,6 +1757,13 @@ def replay(ctx, case, signature=None):
                     del ctx.acc.viol[sig]
         return
     ed = Edges(ctx.acc, "thorough")
+    if kind == "default":
+        ed.default_edges(tuple(case["key"]))
+        if signature:
+            for sig in list(ctx.acc.viol):
+                if sig != signature:
+                    del ctx.acc.viol[sig]
+        return
     frags = [(c, tuple(k)) for c, k in case["frags"]]
     if kind == "scale":
         ed.scale_edges(frags)
